@@ -98,6 +98,14 @@ def programs(tier, seed):
     for e in exprs('quick', ('item', 'j2'))[:26:2] + exprs('quick', ('item', 'j2'))[20:]:
         progs.append({'wxml': '<block wx:for="{{list}}"><block wx:for="{{item.sub}}" wx:for-item="j2" wx:for-index="k2">' + site_wxml('attr', e) + '</block></block>',
                       'kind': 'attr', 'expr': e, 'scopes': ['for', 'for2']})
+    # loops over lists that are not plain data paths (the item still gets its own update tree from the runtime)
+    X9, Y9 = ('id', 'x9'), ('id', 'y9')
+    for le in [('bin', '||', ('id', 'list'), ('arr', [])), ('bin', '&&', X9, ('id', 'list')), ('arr', [X9, Y9]), ('call', ('id', 'f9'), [X9]), ('cond', X9, ('id', 'list'), ('id', 'l2')),
+               ('mem', ('call', ('id', 'f9'), []), 'k'), ('bin', '??', ('id', 'list'), Y9)]:
+        for e in [('mem', ('id', 'item'), 'k'), ('id', 'item'), ('bin', '+', ('id', 'index'), ('mem', ('id', 'item'), 'k'))]:
+            for k in ('attr', 'text'):
+                progs.append({'wxml': '<block wx:for="{{ %s }}">%s</block><template name="t9"><view b="{{p9}}"/></template>' % (esc(M.pr(le)), site_wxml(k, e)),
+                              'kind': k, 'expr': e, 'scopes': ['for']})
     # placements: every site kind nested among static parents / siblings (depth 2 and 3), in component content, blocks and branches
     placements = ['<view bind:tap="h">%s</view>', '<view><text>static</text>%s<view class="s"/></view>',
                   '<view id="i"><view mark:m="1"><text class="del">t</text>%s</view><text>u</text></view>', '<comp>%s</comp>', '<block>%s</block>',
